@@ -361,4 +361,19 @@ def judge(case):
                 return out
     elif raised and not reasons and not raising:
         out.label("converse-miss")
+    if report is not None and not out.findings:
+        # a second execution on the same executor is an execution like any other: exactly once again, same order
+        calls.clear()
+        try:
+            with StepBudget(limit=100000):
+                report2 = ex.execute(ext_inputs)
+        except BudgetExceeded:
+            out.fail("non-termination:execute", "second execute() did not finish within the step budget", d)
+            return out
+        except Exception as e:
+            out.fail("second-execution-differs", "second execute() on the same executor raised %s: %s" % (type(e).__name__, e), d)
+            return out
+        if report2.execution_order != report.execution_order or any(c != 1 for c in calls.values()) or \
+                sorted(calls) != sorted(k for k, m in enumerate(mods) if m["handler"] != "none"):
+            out.fail("second-execution-differs", "second execute(): order %s, handler calls %s" % (report2.execution_order, dict(calls)), d)
     return out
